@@ -116,7 +116,7 @@ def run06(prop, tier, seed, work):
     res.tlc_transitions += st.get("generated", 0)
     allm = [(c["w"], msgs[c["cid"]][0]) for c in cases]
     scen = []
-    nh = 40 if quick else 400
+    nh = 40 if quick else 2000
     for h in range(nh):
         (ty, m) = allm[h % len(allm)]
         steps = [{"op": "decode", "ty": ty, "in": m, "dest": "fresh", "hooks": True}, {"op": "walk", "objs": [0]}]
@@ -162,11 +162,11 @@ def run14(prop, tier, seed, work):
     quick = tier == "quick"
     defs = nocopy_universe()
     defs_path = vlib.write_defs(work, defs)
-    lens = [0, 1, 255, 256, 257, 5000] if not quick else [0, 1, 3, 256, 300]
+    lens = [0, 1, 2, 7, 8, 255, 256, 257, 2047, 2048, 2049, 5000] if not quick else [0, 1, 3, 256, 300]
     cases = []
     n = 0
     for ln in lens:
-        for variant in range(3):
+        for variant in range(3 if quick else 6):
             def sv(k):
                 return U.strbytes(ln if (k + variant) % 3 else max(0, ln - 1), k)
             inner = lambda a: {"f": {"1": sv(a), "2": sv(a + 1), "3": {"nil": variant == 2, "b": [] if variant == 2 else sv(a + 2)}}, "unk": []}
